@@ -84,7 +84,8 @@ pub fn build_goal(transport: Arc<dyn TransportCost>, obj: &str, dims: usize, ext
     GoalContextBuilder::with_features(&features).unwrap().build().unwrap()
 }
 
-/// builds problem + insertion context with the tour in place (caches accepted), candidate job in `required`
+/// builds problem + insertion context with the tour in place (caches accepted); the candidate job is
+/// listed in `unassigned` with an unknown reason, as `InsertionContext::new` leaves it
 pub fn build_case(case: &Value, env: Arc<Environment>) -> EvalCase {
     let durations: Vec<f64> = i64s(&case["dur"]).into_iter().map(|x| x as f64).collect();
     let distances: Vec<f64> = i64s(&case["dist"]).into_iter().map(|x| x as f64).collect();
@@ -160,7 +161,9 @@ pub fn build_case(case: &Value, env: Arc<Environment>) -> EvalCase {
     // the start activity keeps the departure set above only if accept_route_state does not reset it
     if !tour_jobs.is_empty() {
         ctx.solution.routes.push(route_ctx);
+        // NOTE `InsertionContext::new` lists every job as unassigned (unknown reason)
         ctx.solution.required.retain(|j| !tour_jobs.contains(j));
+        ctx.solution.unassigned.retain(|j, _| !tour_jobs.contains(j));
         problem.goal.accept_solution_state(&mut ctx.solution);
     } else {
         // empty tour: the route stays in the registry, as for a fresh vehicle
